@@ -1047,3 +1047,102 @@ pub fn run_c14(ctx: &Ctx) -> i32 {
 
 #[allow(dead_code)]
 fn _unused(_: TestSource, _: Audio) {}
+
+/// Miri/sanitizer-sized C11: a slice of the exhaustive grid plus random histories.
+pub fn mini_c11(ctx: &Ctx, scale: u64, out: &mut Outcome) {
+    let mut rng = Rng::for_case(ctx.seed, "mini.C11", 0);
+    for k in 0..scale {
+        let off = ((ctx.seed + k) * 7 % 64) as usize;
+        let prefix = Op::Lsbs(3, rng.next_u64(), off);
+        let probe = Op::Lsbs(1, 0x8001, 16);
+        for t in 0u8..4 {
+            for n in [0usize, 1, tbits(t) / 2, tbits(t) - 1, tbits(t)] {
+                for which in 0..2 {
+                    let v = [0, tmask(t), rng.next_u64() & tmask(t)][rng.usize_below(3)];
+                    let op = if which == 0 { Op::Msbs(t, v, n) } else { Op::Lsbs(t, v, n) };
+                    let h = vec![prefix.clone(), op.clone(), probe.clone(), Op::Align, Op::Zeros(rng.usize_below(130)), Op::Bytes(vec![0xA5, 0x5A])];
+                    out.evaluations += 1;
+                    if let Err((i, d)) = run_history(&h) {
+                        out.violation(format!("C11|model-mismatch|{}", op_class(&op)), format!("offset {off}, {op:?}: after op #{i}: {d}"), json!({}));
+                    }
+                }
+            }
+        }
+    }
+}
+
+/// Miri/sanitizer-sized C12: every fault position of tiny streams and their parts.
+pub fn mini_c12(ctx: &Ctx, scale: u64, out: &mut Outcome) {
+    for idx in 0..scale {
+        let mut rng = Rng::for_case(ctx.seed, "mini.C12", idx);
+        let mut case = gen_case(&mut rng, &Limits { max_samples: 100, max_blocks: 2, max_block_size: 48, channel_choices: vec![1, 2], ..Limits::default() });
+        case.cfg.multithread = false;
+        case.cfg.subframe_coding.qlpc.lpc_order = case.cfg.subframe_coding.qlpc.lpc_order.min(6);
+        let Ok(obs) = observe(&case) else { continue };
+        let mut stream = obs.stream;
+        if idx % 2 == 0 {
+            stream.add_metadata_block(MetadataBlockData::new_unknown(5, &[1, 2, 3]).unwrap());
+        }
+        fault_sweep(ctx, "Stream", &stream, 400, out, &|_| json!({}));
+        if let Some(f) = stream.frame(0) {
+            let mut f2 = f.clone();
+            f2.precompute_bitstream();
+            fault_sweep(ctx, "Frame(precomputed)", &f2, 100, out, &|_| json!({}));
+        }
+    }
+}
+
+/// Miri/sanitizer-sized C14: integer vs byte fills of small buffers (the byte path goes through
+/// the unsafe SimdVec flattening).
+pub fn mini_c14(ctx: &Ctx, scale: u64, out: &mut Outcome) {
+    let vcfg = verbatim_only();
+    for idx in 0..4 * scale {
+        let mut rng = Rng::for_case(ctx.seed, "mini.C14", idx);
+        let channels = 1 + (idx % 4) as usize;
+        let bytes = 1 + (idx / 4 % 4) as usize;
+        let cap = [32usize, 33, 40][(idx % 3) as usize];
+        let bps = match bytes {
+            1 => 8,
+            2 => 16,
+            3 => 24,
+            _ => 20,
+        };
+        let lo = gen::smin(bps) as i64;
+        let hi = gen::smax(bps) as i64;
+        let Ok(si) = StreamInfo::new(44100, channels, bps) else { continue };
+        let r = catch(|| -> Result<(), String> {
+            let mut fb_i = FrameBuf::with_size(channels, cap).map_err(|e| format!("{e}"))?;
+            let mut fb_b = FrameBuf::with_size(channels, cap).map_err(|e| format!("{e}"))?;
+            let mut ctx_i = Context::new(bps, channels);
+            let mut ctx_b = Context::new(bps, channels);
+            for len in [cap, rng.usize_below(cap + 1), rng.usize_below(9)] {
+                let data: Vec<i32> = (0..len * channels).map(|_| match rng.usize_below(4) { 0 => lo as i32, 1 => hi as i32, _ => rng.range(lo, hi) as i32 }).collect();
+                let by = gen::to_le_bytes(&data, bytes);
+                fb_i.fill_interleaved(&data).map_err(|e| format!("{e}"))?;
+                fb_b.fill_le_bytes(&by, bytes).map_err(|e| format!("{e}"))?;
+                if len > 0 {
+                    let vi = buffer_view(&vcfg, &fb_i, &si)?;
+                    let vb = buffer_view(&vcfg, &fb_b, &si)?;
+                    let want: Vec<Vec<i32>> = (0..channels).map(|ch| (0..len).map(|t| data[t * channels + ch]).collect()).collect();
+                    if vi != want || vb != want {
+                        return Err(format!("fill of {len} samples ({bytes} bytes/sample, {channels} ch, capacity {cap}) exposes a buffer that differs from the input"));
+                    }
+                }
+                if bytes == (bps + 7) / 8 {
+                    ctx_i.fill_interleaved(&data).map_err(|e| format!("{e}"))?;
+                    ctx_b.fill_le_bytes(&by, bytes).map_err(|e| format!("{e}"))?;
+                    if ctx_i.md5_digest() != ctx_b.md5_digest() || ctx_i.total_samples() != ctx_b.total_samples() {
+                        return Err("Context diverges between integer and byte fill".to_string());
+                    }
+                }
+            }
+            Ok(())
+        });
+        out.evaluations += 1;
+        match r {
+            Ok(Ok(())) => {}
+            Ok(Err(e)) => out.violation(format!("C14|fill-mismatch|bytes{bytes}"), e, json!({})),
+            Err(p) => out.violation(format!("C14|panic|{}", p.site()), p.short(), json!({})),
+        }
+    }
+}
